@@ -175,7 +175,7 @@ void Broker::handle(int conn, const ref::Packet& p, const std::string& raw) {
     case ref::PUBLISH: {
         if (p.qos() == 0) break;
         c.inflight.insert(p.pid); if (int(c.inflight.size()) > c.max_inflight) c.max_inflight = int(c.inflight.size());
-        if (cfg.hold_publish_acks) break;
+        if (cfg.hold_publish_acks && (cfg.hold_acks_first_conns == 0 || conn < cfg.hold_acks_first_conns)) break;
         if (p.qos() == 1) { ref::Packet a; a.type = ref::PUBACK; a.pid = p.pid; a.has_pid = true; a.has_rc = true; a.rc = cfg.puback_rc; a.props = ack_props_of(cfg, "puback"); a.has_props = true; emit(conn, a); }
         else { if (cfg.pubrec_rc < 0x80) s.inbound_qos2.insert(p.pid);
             ref::Packet a; a.type = ref::PUBREC; a.pid = p.pid; a.has_pid = true; a.has_rc = true; a.rc = cfg.pubrec_rc; a.props = ack_props_of(cfg, "pubrec"); a.has_props = true; emit(conn, a); }
